@@ -991,9 +991,11 @@ fn run_pazip(v: &str, x: &[u8], _t: &[u8], _tr: Train) -> Outcome {
         || {
             // "big" protos are fresh objects already (see pazip_proto)
             let mut c = if corp == "big" || corp == "sampled" { proto.take().expect("fresh compressor") } else { proto.as_ref().expect("proto").clone() };
+            let mut earlier: Option<Vec<u8>> = None;
             if reused {
                 let mut y0 = Vec::new();
                 c.compress(b"an earlier record: the quick brown fox 0123456789 0123456789", &mut y0).map_err(es)?;
+                earlier = Some(y0);
             }
             let mut y = Vec::new();
             let st = c.compress(x, &mut y).map_err(es)?;
@@ -1008,10 +1010,14 @@ fn run_pazip(v: &str, x: &[u8], _t: &[u8], _tr: Train) -> Outcome {
                 u.push("global");
             }
             *used.borrow_mut() = if u.is_empty() { "unreported".to_string() } else { u.join("+") };
-            Ok((y, c))
+            Ok((y, (c, earlier)))
         },
-        |y, mut c| {
+        |y, (mut c, earlier)| {
+            // a reused object also reuses its caller's output buffer: the earlier record is decoded into it first
             let mut z = Vec::new();
+            if let Some(y0) = earlier {
+                c.decompress(&y0, &mut z).map_err(es)?;
+            }
             c.decompress(y, &mut z).map_err(es)?;
             Ok(z)
         },
